@@ -106,7 +106,7 @@ def run_case(case, scratch_root):
             argv.append("--stop-early")
         spec = {"root": root, "cwd": inv.get("cwd", ""), "argv": argv, "script": inv.get("script", {}),
                 "strategy": inv.get("strategy", "blocked-fifo"), "seed": inv.get("seed", 0),
-                "inject": inv.get("inject"), "count_lines": inv.get("count_lines", False), "unrelated": inv.get("unrelated"), "outer_env": inv.get("outer_env")}
+                "inject": inv.get("inject"), "count_lines": inv.get("count_lines", False), "unrelated": inv.get("unrelated"), "outer_env": inv.get("outer_env"), "proc": inv.get("proc")}
         blockers = []
         for x, sc in inv.get("script", {}).items():
             if sc.get("launch_fail") == "outdir" and x in tb and tb[x]["kind"] == "run_command":
@@ -591,6 +591,11 @@ def eval_case(arg):
 FAULTS = [{"exit": 1}, {"exit": 2}, {"exit": 255}, {"exit": 256 + 3}, {"signal": 9}, {"signal": 11}, {"signal": 15}, {"launch_fail": "chdir"}, {"launch_fail": "exec"}, {"launch_fail": "outdir"}]
 
 
+def realrun_envs():
+    from . import realrun
+    return realrun.PROC_ENVS
+
+
 def pick_fault(rng, t, pool=None):
     """'outdir' (a file where the output directory belongs) has a predictable location only for run_command"""
     f = dict(rng.choice(pool or FAULTS))
@@ -617,6 +622,11 @@ def mk_history(rng, tasks, target, focus, strategies):
         if rng.random() < 0.2:
             # nested invocation: the enclosing task's COND_* variables are in Conductor's own environment
             inv["outer_env"] = {"COND_SLOT": str(rng.choice([0, 1, 3, 7])), "COND_NAME": "outer", "COND_OUT": "/outer/cond-out/x.task", "COND_DEPS": "/outer/cond-out/y.task"}
+        if rng.random() < 0.15:
+            # variables that only change how output is rendered
+            inv.setdefault("outer_env", {}).update(rng.choice(realrun_envs()))
+        if rng.random() < 0.12:
+            inv["proc"] = {"one_cpu": True, "cpu_index": rng.randrange(64)}
         if focus == "wide":
             inv["jobs"] = rng.choice([1, 2, 2, 3, 3, 4, 6])
             if rng.random() < 0.35:
